@@ -386,11 +386,15 @@ impl Ctx {
         }
         let mut viol_lines = Vec::new();
         let dir = format!("{}/replays/{}", VERIF_ROOT, self.prop);
-        if !uniq.is_empty() {
+        if !uniq.is_empty() && !self.discover {
             let _ = std::fs::create_dir_all(&dir);
         }
         for (sig, f) in &uniq {
             let path = format!("{}/{:016x}.json", dir, fnv64(sig.as_bytes()));
+            if self.discover {
+                viol_lines.push((sig.clone(), path, f.detail.clone()));
+                continue;
+            }
             let body = json!({
                 "property": self.prop, "sub": f.sub, "signature": sig, "detail": f.detail,
                 "shrunk": f.shrunk, "seed": self.seed, "case": f.case,
